@@ -30,6 +30,7 @@ func C12(p *core.Program, r *core.Report) {
 
 	checkMTCP(p, r)
 	checkSendsOnClosableChannels(p, r, mtcpPkg)
+	checkFieldBuffersReset(p, r, mtcpPkg, bbcPkg)
 	r.Analysed["error_returning_functions_checked"] = checkErrorsNotSwallowedIn(p, r, mtcpPkg, bbcPkg)
 	checkLoopVarCapture(p, r)
 	checkBBC(p, r)
@@ -485,6 +486,102 @@ func checkSendsOnClosableChannels(p *core.Program, r *core.Report, pkgRel string
 		})
 	}
 	r.Count("sends on closable channels in "+pkgRel, n)
+}
+
+// checkFieldBuffersReset: a bytes.Buffer that is a field of the adapter lives
+// longer than one Send. If an earlier Send failed part-way (connection cut
+// while the buffer was being written out), the unsent rest is still in it. A
+// method that fills such a buffer must Reset it first, on every path to the
+// first write into it; a buffer local to the call needs nothing.
+func checkFieldBuffersReset(p *core.Program, r *core.Report, pkgs ...string) {
+	n := 0
+	for _, rel := range pkgs {
+		pkg := p.Pkg(rel)
+		for _, fn := range p.RepoFuncs() {
+			if fn.Pkg != pkg {
+				continue
+			}
+			// field addresses of type bytes.Buffer (or *bytes.Buffer loads) used in this function
+			bufs := map[string][]ssa.Value{}
+			core.EachInstr(fn, func(in ssa.Instruction) {
+				fa, ok := in.(*ssa.FieldAddr)
+				if !ok {
+					return
+				}
+				t := fa.Type().Underlying().(*types.Pointer).Elem()
+				isBuf := core.TypeIs(t, "bytes", "Buffer")
+				if !isBuf {
+					if pt, ok := t.Underlying().(*types.Pointer); ok && core.TypeIs(pt.Elem(), "bytes", "Buffer") {
+						isBuf = true
+					}
+				}
+				if !isBuf {
+					return
+				}
+				_, field, _ := core.FieldOwner(fa)
+				bufs[field] = append(bufs[field], fa)
+			})
+			for field, addrs := range bufs {
+				derived := map[ssa.Value]bool{}
+				for _, a := range addrs {
+					derived[a] = true
+				}
+				for changed := true; changed; {
+					changed = false
+					core.EachInstr(fn, func(in ssa.Instruction) {
+						switch x := in.(type) {
+						case *ssa.UnOp:
+							if x.Op == token.MUL && derived[x.X] && !derived[x] {
+								if _, isPtr := x.Type().Underlying().(*types.Pointer); isPtr {
+									derived[x], changed = true, true
+								}
+							}
+						case *ssa.MakeInterface:
+							if derived[x.X] && !derived[x] {
+								derived[x], changed = true, true
+							}
+						}
+					})
+				}
+				isReset := func(i ssa.Instruction) bool {
+					c, ok := i.(*ssa.Call)
+					return ok && (core.CalleeName(c) == "bytes.Buffer.Reset" || core.CalleeName(c) == "bytes.Buffer.Truncate") && derived[core.CallRecv(c)]
+				}
+				var bad []string
+				writes := 0
+				core.EachInstr(fn, func(in ssa.Instruction) {
+					c, ok := in.(*ssa.Call)
+					if !ok || isReset(in) {
+						return
+					}
+					// a write into the buffer: it is passed as io.Writer / *bytes.Buffer argument, or a Write* method is called on it
+					isWrite := false
+					name := core.CalleeName(c)
+					if strings.HasPrefix(name, "bytes.Buffer.Write") && derived[core.CallRecv(c)] {
+						isWrite = true
+					}
+					for _, a := range core.CallArgs(c) {
+						if derived[a] && !strings.HasPrefix(name, "bytes.Buffer.") {
+							isWrite = true
+						}
+					}
+					if !isWrite {
+						return
+					}
+					writes++
+					if !core.MustPassBefore(in, isReset) {
+						bad = append(bad, p.Pos(in.Pos()))
+					}
+				})
+				if writes == 0 {
+					continue
+				}
+				n++
+				r.Check(len(bad) == 0, fmt.Sprintf("field-buffer-reset/%s/%s", fname(fn), field), "a bytes.Buffer kept in a field of the adapter is Reset before a method fills it: what a failed earlier call left in it must not be sent ahead of the next bundle", p.Pos(fn.Pos()), "", "the buffer field "+field+" is written at "+strings.Join(bad, ", ")+" without a preceding Reset: after a Send that failed part-way the rest of that bundle is sent in front of the next one, under a header announcing both")
+			}
+		}
+	}
+	r.Analysed["field_buffers_filled"] = n
 }
 
 func checkBBC(p *core.Program, r *core.Report) {
